@@ -19,6 +19,8 @@ import (
 	"go.etcd.io/etcd/etcdserver/api/v3rpc/rpctypes"
 	"go.uber.org/zap"
 	"google.golang.org/grpc"
+	"google.golang.org/grpc/codes"
+	"google.golang.org/grpc/status"
 )
 
 type Etcd struct {
@@ -142,6 +144,15 @@ type KeepCtl struct {
 	holdRange bool
 	rangeHeld chan struct{}
 	rangeRel  chan struct{}
+	// FailRanges(n): the next n Range (Get) calls fail without reaching etcd
+	failRange int
+}
+
+// FailRanges makes the next n reads of this client fail (the request is not sent).
+func (k *KeepCtl) FailRanges(n int) {
+	k.mu.Lock()
+	k.failRange = n
+	k.mu.Unlock()
 }
 
 func (k *KeepCtl) HoldRange() {
@@ -161,6 +172,17 @@ func (k *KeepCtl) RevokeHeld() <-chan struct{} { return k.revHeld }
 func (k *KeepCtl) ReleaseRevoke()              { k.revRel <- struct{}{} }
 
 func (k *KeepCtl) interceptUnary(ctx context.Context, method string, req, reply interface{}, cc *grpc.ClientConn, invoker grpc.UnaryInvoker, opts ...grpc.CallOption) error {
+	if method == "/etcdserverpb.KV/Range" {
+		k.mu.Lock()
+		f := k.failRange > 0
+		if f {
+			k.failRange--
+		}
+		k.mu.Unlock()
+		if f {
+			return status.Error(codes.Unknown, "etcdserver: injected read fault")
+		}
+	}
 	err := invoker(ctx, method, req, reply, cc, opts...)
 	if method == "/etcdserverpb.KV/Range" {
 		k.mu.Lock()
